@@ -112,13 +112,15 @@ theorem kvCmp_eq_iff (k1 : Bytes) (v1 : Nat) (k2 : Bytes) (v2 : Nat) :
   | lt => simp; intro e; subst e; rw [cmpBytes_refl] at h; cases h
   | eq =>
     have := (cmpBytes_eq_iff k1 k2).mp h
-    simp [this, Nat.compare_eq_eq, eq_comm]
+    simp only [this, true_and]
+    rw [Nat.compare_eq_eq]; exact eq_comm
 
 theorem kvCmp_swap (k1 : Bytes) (v1 : Nat) (k2 : Bytes) (v2 : Nat) :
     (kvCmp k1 v1 k2 v2).swap = kvCmp k2 v2 k1 v1 := by
   unfold kvCmp
   rw [← cmpBytes_swap k1 k2]
-  cases cmpBytes k1 k2 <;> simp [Ordering.swap, Nat.compare_swap]
+  cases cmpBytes k1 k2 <;> simp only [Ordering.swap]
+  exact Nat.compare_swap v2 v1
 
 theorem kvCmp_refl (k : Bytes) (v : Nat) : kvCmp k v k v = .eq := (kvCmp_eq_iff _ _ _ _).mpr ⟨rfl, rfl⟩
 
